@@ -174,6 +174,8 @@ static void do_rtd(struct worker *w)
 	mtdp->idx = 0;
 }
 
+static void do_cmd(struct worker *w, int cmd);
+
 static void *worker_main(void *arg)
 {
 	struct worker *w = arg;
@@ -185,27 +187,7 @@ static void *worker_main(void *arg)
 			pthread_cond_wait(&w->cv, &w->mu);
 		if (w->cmd == 9)
 			break;
-		switch (w->cmd) {
-		case 1:
-			w->mtdp = mcount_prepare();
-			if (w->mtdp) {
-				/* mcount_prepare() leaves the recursion guard set (the hook clears it) */
-				w->mtdp->recursion_marker = false;
-				w->prepared = 1;
-			}
-			break;
-		case 2:
-			do_rtd(w);
-			break;
-		case 4:
-			mcount_global_flags |= MCOUNT_GFL_FINISH;
-			/* fall through: the triggering thread runs mtd_dtor at the end of its hook */
-		case 3:
-			w->mtdp->idx = 0;
-			mtd_dtor(w->mtdp);
-			w->finished = 1;
-			break;
-		}
+		do_cmd(w, w->cmd);
 		w->cmd = 0;
 		w->done = 1;
 		pthread_cond_broadcast(&w->cv);
@@ -214,8 +196,38 @@ static void *worker_main(void *arg)
 	return NULL;
 }
 
+static int inline_mode; /* H1C03_INLINE=1: producer 1 is the main thread (needed for STEP: fork keeps it) */
+
+static void do_cmd(struct worker *w, int cmd)
+{
+	switch (cmd) {
+	case 1:
+		w->mtdp = mcount_prepare();
+		if (w->mtdp) {
+			w->mtdp->recursion_marker = false;
+			w->prepared = 1;
+		}
+		break;
+	case 2:
+		do_rtd(w);
+		break;
+	case 4:
+		mcount_global_flags |= MCOUNT_GFL_FINISH;
+		/* fall through */
+	case 3:
+		w->mtdp->idx = 0;
+		mtd_dtor(w->mtdp);
+		w->finished = 1;
+		break;
+	}
+}
+
 static void run_cmd(struct worker *w, int cmd)
 {
+	if (inline_mode && w == &workers[1]) {
+		do_cmd(w, cmd);
+		return;
+	}
 	pthread_mutex_lock(&w->mu);
 	w->done = 0;
 	w->cmd = cmd;
@@ -580,15 +592,136 @@ static int parse_rtd(char **tok, int nt, struct rtd_op *op)
 }
 
 /*
- * C04: run one rtd op in a forked copy of this process under PTRACE_SINGLESTEP and report every
- * distinct observable state of the thread's shared buffers (what the recorder's flush would copy)
- * together with the messages sent so far.  One line "STATES n | <size>:<items> …".
+ * C04: what <tid>.dat of thread k would hold if the process were killed NOW and the recorder ran its
+ * shutdown (read the rest of the pipe, finish the queued buffers, flush_shmem_list, remaining buffers).
+ * Read-only: works on the shared buffers and on copies of the recorder's lists.
  */
-static void step_trace(struct worker *w, struct rtd_op *op)
+static struct mcount_shmem_buffer *cached_map(struct wbuf b)
 {
-	/* implemented in the parent process: see main(), op STEPALL */
-	(void)w;
-	(void)op;
+	static struct mcount_shmem_buffer *cache[MAXT + 1][256];
+
+	if (b.idx < 0 || b.idx >= 256)
+		return NULL;
+	if (!cache[b.k][b.idx])
+		cache[b.k][b.idx] = map_buf(b);
+	return cache[b.k][b.idx];
+}
+
+static void view_add(struct wbuf b, int need_flag, char *out, size_t outlen)
+{
+	static char txt[1 << 15];
+	struct mcount_shmem_buffer *sb = cached_map(b);
+	unsigned size;
+
+	if (!sb)
+		return;
+	size = *(volatile unsigned *)&sb->size;
+	if (need_flag && !((*(volatile unsigned *)&sb->flag & SHMEM_FL_RECORDING) && size))
+		return;
+	decode_items((unsigned char *)sb->data, size, NULL, txt, sizeof(txt));
+	if (txt[0]) {
+		size_t l = strlen(out);
+
+		snprintf(out + l, outlen - l, "%s%s", l ? "," : "", txt);
+	}
+}
+
+static void kill_view(int k, char *out, size_t outlen)
+{
+	struct wlist shm = shmlist;
+	int i, j;
+
+	out[0] = 0;
+	for (i = 0; i < files[k].n; i++) {
+		long v = files[k].v[i];
+		size_t l = strlen(out);
+
+		if (v <= -1000000)
+			snprintf(out + l, outlen - l, "%s~%ld", l ? "," : "", -1000000 - v);
+		else if (v < 0)
+			snprintf(out + l, outlen - l, "%sL%ld", l ? "," : "", -v);
+		else
+			snprintf(out + l, outlen - l, "%s%ld", l ? "," : "", v);
+	}
+	/* queued: the writer working for k, then the write list */
+	for (i = 0; i < nwriters; i++)
+		if (writers[i].k == k) {
+			for (j = 0; j < writers[i].head.n; j++)
+				view_add(writers[i].head.b[j], 0, out, outlen);
+			for (j = 0; j < writers[i].bufs.n; j++)
+				view_add(writers[i].bufs.b[j], 0, out, outlen);
+		}
+	for (j = 0; j < writelist.n; j++)
+		if (writelist.b[j].k == k)
+			view_add(writelist.b[j], 0, out, outlen);
+	/* the rest of the pipe */
+	for (i = 0; i < npipe; i++) {
+		struct wbuf b = { pipeq[i].k, pipeq[i].idx };
+
+		if (pipeq[i].k != k)
+			continue;
+		if (pipeq[i].type == UFTRACE_MSG_REC_START)
+			wl_push(&shm, b);
+		else if (pipeq[i].type == UFTRACE_MSG_REC_END) {
+			for (j = 0; j < shm.n; j++)
+				if (shm.b[j].k == b.k && shm.b[j].idx == b.idx) {
+					memmove(&shm.b[j], &shm.b[j + 1], sizeof(b) * (shm.n - j - 1));
+					shm.n--;
+					break;
+				}
+			view_add(b, 1, out, outlen);
+		}
+	}
+	/* flush_shmem_list */
+	for (j = 0; j < shm.n; j++)
+		if (shm.b[j].k == k)
+			view_add(shm.b[j], 1, out, outlen);
+}
+
+/*
+ * Run one rtd op in a forked copy of this process (same thread, same shared buffers, same FIFO) under
+ * PTRACE_SINGLESTEP; after every instruction compute the kill view; print the distinct ones in order.
+ */
+static void step_trace(struct worker *w, int k)
+{
+	static char view[1 << 15], last[1 << 15], all[1 << 18];
+	pid_t pid;
+	int st;
+	long steps = 0;
+	size_t pos = 0;
+
+	fflush(stdout);
+	kill_view(k, last, sizeof(last));
+	pos += snprintf(all + pos, sizeof(all) - pos, "[%s]", last);
+	/* raw fork: libmcount's pthread_atfork child handler would give the copy fresh buffers */
+	pid = syscall(SYS_fork);
+	if (pid == 0) {
+		ptrace(PTRACE_TRACEME, 0, 0, 0);
+		syscall(SYS_kill, syscall(SYS_getpid), SIGSTOP);
+		do_rtd(w);
+		syscall(SYS_exit_group, 0);
+	}
+	waitpid(pid, &st, 0);
+	while (WIFSTOPPED(st)) {
+		int sig = WSTOPSIG(st);
+
+		if (sig == SIGSTOP || sig == SIGTRAP)
+			sig = 0;
+		if (ptrace(PTRACE_SINGLESTEP, pid, 0, sig) < 0)
+			break;
+		if (waitpid(pid, &st, 0) < 0)
+			break;
+		steps++;
+		drain_fifo(k);
+		kill_view(k, view, sizeof(view));
+		if (strcmp(view, last)) {
+			strcpy(last, view);
+			if (pos + strlen(view) + 4 < sizeof(all))
+				pos += snprintf(all + pos, sizeof(all) - pos, "|[%s]", view);
+		}
+	}
+	printf("ok STEPS exit=%d instructions=%ld views=%s\n", WIFEXITED(st) ? WEXITSTATUS(st) : -WTERMSIG(st), steps,
+	       all);
 }
 
 int main(void)
@@ -601,6 +734,7 @@ int main(void)
 	snprintf(path, sizeof(path), "%s/.channel", getenv("UFTRACE_DIR") ?: ".");
 	fifo_fd = open(path, O_RDONLY | O_NONBLOCK);
 	bufsize = getenv("UFTRACE_BUFFER") ? strtoul(getenv("UFTRACE_BUFFER"), NULL, 0) : 4096;
+	inline_mode = getenv("H1C03_INLINE") != NULL;
 
 	printf("SYMS");
 	for (k = 0; k < 8; k++)
@@ -634,7 +768,9 @@ int main(void)
 				printf("bad-op\n");
 				continue;
 			}
-			if (!w->th && !w->killed) {
+			if (inline_mode && k == 1 && !w->tid)
+				w->tid = syscall(SYS_gettid);
+			if (!w->th && !w->killed && !(inline_mode && k == 1)) {
 				pthread_create(&w->th, NULL, worker_main, w);
 				while (!w->tid)
 					sched_yield();
@@ -671,6 +807,18 @@ int main(void)
 			}
 			drain_fifo(k);
 			dump_state("ok");
+		}
+		else if (!strcmp(tok[0], "STEP") && nt >= 4 && !strcmp(tok[2], "rtd")) {
+			struct worker *w;
+
+			k = atoi(tok[1]);
+			w = &workers[k];
+			if (!inline_mode || k != 1 || !w->prepared || w->killed || w->finished ||
+			    parse_rtd(tok + 3, nt - 3, &w->op) < 0) {
+				printf("bad-op\n");
+				continue;
+			}
+			step_trace(w, k);
 		}
 		else if (!strcmp(tok[0], "K") && nt >= 2) {
 			k = atoi(tok[1]);
@@ -833,6 +981,5 @@ int main(void)
 	}
 	printf("SESS %s\n", sess);
 	fflush(stdout);
-	(void)step_trace;
 	_exit(0);
 }
